@@ -1505,13 +1505,21 @@ class PyCdlib:
         Returns:
          Nothing.
         """
+        # The El Torito specification requires its Boot Record to be at extent
+        # 17, so the Boot Records directly follow the first PVD; any duplicate
+        # PVDs come after them.
         current_extent = 16
-        for pvd in self.pvds:
-            pvd.set_extent_location(current_extent)
-            current_extent += 1
+        self.pvd.set_extent_location(current_extent)
+        current_extent += 1
 
         for br in self.brs:
             br.set_extent_location(current_extent)
+            current_extent += 1
+
+        for pvd in self.pvds:
+            if pvd is self.pvd:
+                continue
+            pvd.set_extent_location(current_extent)
             current_extent += 1
 
         for svd in self.svds:
@@ -2841,10 +2849,9 @@ class PyCdlib:
             self._outfp_write_with_check(outfp,
                                          self.isohybrid_mbr.record(self.pvd.space_size * self.logical_block_size))
 
-        outfp.seek(self.pvd.extent_location() * self.logical_block_size)
-
         # First write out the PVDs.
         for pvd in self.pvds:
+            outfp.seek(pvd.extent_location() * self.logical_block_size)
             rec = pvd.record()
             self._outfp_write_with_check(outfp, rec)
             progress.call(len(rec))
